@@ -51,7 +51,8 @@ def coq_env():
 def build_coq(log):
     """Full .vo build, serialised across concurrently running checks."""
     C.ensure_dir(C.WORK)
-    with open(os.path.join(C.WORK, "build.lock"), "w") as lk:
+    C.ensure_dir(C.LOCKDIR)
+    with open(os.path.join(C.LOCKDIR, "build.lock"), "w") as lk:
         fcntl.flock(lk, fcntl.LOCK_EX)
         p = subprocess.run(["sh", os.path.join(C.VERIF, "setup.sh")], stdout=subprocess.PIPE,
                            stderr=subprocess.STDOUT, timeout=3400, env=coq_env())
@@ -453,8 +454,8 @@ def main(argv):
         "wall_s": round(wall, 2),
         "violations": len(violations),
     }
-    C.ensure_dir(os.path.join(C.VERIF, "evidence"))
-    json.dump(ev, open(os.path.join(C.VERIF, "evidence", f"{pid}.json"), "w"), indent=1, default=str)
+    C.ensure_dir(C.EVIDENCE)
+    json.dump(ev, open(os.path.join(C.EVIDENCE, f"{pid}.json"), "w"), indent=1, default=str)
     if log and (violations or os.environ.get("VERIF_VERBOSE")):
         sys.stderr.write("\n".join(log)[-6000:] + "\n")
     for l in known_lines:
